@@ -77,6 +77,7 @@ Candidates(v) ==
   \cup {O2("sliced", a, b) : a \in f..(f + n), b \in f..(f + n)}
   \cup {O2("blocked", a, b) : a \in f..(f + n), b \in f..(f + n)}
   \cup {O1("strided", s) : s \in 1..MaxExt}
+  \cup {[op |-> "sliced3", args |-> <<a, b, st>>] : a \in f..(f + n), b \in f..(f + n), st \in 2..MaxExt}
   \cup {O1("dropped", k) : k \in 0..n}
   \cup {O1("taked", k) : k \in 0..n}
   \cup {O1("partitioned", p) : p \in 1..MaxExt}
@@ -84,12 +85,12 @@ Candidates(v) ==
   \cup {O1("broadcast", k) : k \in {0, 7}}
   \cup {O1("reindexed", g) : g \in Bases}
   \cup {O2("reindexed", g, h) : g \in Bases, h \in Bases}
-  \cup {O0(nm) : nm \in {"rotated", "unrotated", "transposed", "reversed", "diagonal", "flatted"}}
+  \cup {O0(nm) : nm \in {"rotated", "unrotated", "transposed", "reversed", "diagonal", "flatted", "halved", "tilde"}}
   \cup {[op |-> "paren", args |-> Flatten3(s)] :
           s \in UNION {ParenSeqs(v, 1, k) : k \in 0..Min2(Dim(v), ParenArgs)}}
 
 ResultDim(v, o) ==
-  CASE o.op \in {"partitioned", "chunked"} -> Dim(v) + 1
+  CASE o.op \in {"partitioned", "chunked", "broadcast", "halved"} -> Dim(v) + 1    \* broadcast passes through a (D+1)-dimensional view
     [] OTHER -> Dim(v)
 
 Enabled(o) ==
